@@ -294,7 +294,13 @@ Proof.
 Qed.
 
 (* ---- constant-size requests ---- *)
-Lemma msg_buffer_request_bounded file sz : alloc_bounded 0 131070 file (msg_buffer_request sz).
+Lemma msg_buffer_request_bounded file sz : alloc_bounded 0 65535 file (msg_buffer_request sz).
 Proof. unfold msg_buffer_request, wrap16. apply ab_cons; [lia|apply ab_nil]. Qed.
+(* repaired: the buffers of n one-byte messages total n bytes <= the 5 n bytes they occupy in the file *)
+Lemma storm_repaired_bounded n : storm_requests false n <= storm_file_bytes n.
+Proof. unfold storm_requests, storm_file_bytes. lia. Qed.
+(* pooled buffers: for every k < 819 and every c some header exceeds k * (its bytes in the file) + c *)
+Lemma storm_pooled_unbounded k c : k < 819 -> exists n, k * storm_file_bytes n + c < storm_requests true n.
+Proof. intros Hk. exists (c + 1). unfold storm_requests, storm_file_bytes. nia. Qed.
 Lemma inflate_requests_bounded file claimed : alloc_bounded 0 2147484162 file (inflate_requests claimed).
 Proof. unfold inflate_requests, inflate_limit, MaxChunkSize. apply ab_cons; [lia|apply ab_nil]. Qed.
